@@ -39,7 +39,8 @@ def jsonable(o):
 
 
 def write_replay(prop, tier, violation):
-    os.makedirs(os.path.join(VERIF, "replays"), exist_ok=True)
+    rdir = os.environ.get("VERIF_REPLAY_DIR") or os.path.join(VERIF, "replays")
+    os.makedirs(rdir, exist_ok=True)
     body = {
         "property": prop,
         "tier": tier,
@@ -50,7 +51,7 @@ def write_replay(prop, tier, violation):
         "curies_src": os.environ.get("CURIES_SRC", "/repo/src"),
     }
     digest = hashlib.sha1(json.dumps(body, sort_keys=True).encode()).hexdigest()[:12]
-    path = os.path.join(VERIF, "replays", f"{prop}-{digest}.json")
+    path = os.path.join(rdir, f"{prop}-{digest}.json")
     with open(path, "w") as f:
         json.dump(body, f, indent=1, sort_keys=True, ensure_ascii=True)
     return path
